@@ -352,7 +352,7 @@ func VerifAdapterMain(args []string) int {
 	if err := fs.Parse(args); err != nil {
 		return 2
 	}
-	mcache.VerifDoPoison = false
+	mcache.VerifDoPoison = true // a premature free must show in every held result (HELD-CHANGED) and in what is read later
 	io_, err := os.Create(*implOut)
 	if err != nil {
 		fmt.Fprintln(os.Stderr, err)
